@@ -86,12 +86,14 @@ def run(chk):
                                               "FeedContComplete", "FeedOrphan"])
 
     # 2. spec -> implementation: every interleaving exported by TLC, replayed on the real code
-    gens = [("HidGen_quick.cfg", 5000), ("HidGen_stray.cfg", 4000)]
+    gens = [("HidGen_quick.cfg", 5000), ("HidGen_stray.cfg", 4000), ("HidGen_abandon.cfg", 4000)]
     if thorough:
         gens += [("HidGen_four.cfg", 100000)]
     nbeh = 0
     for cfg, mn in gens:
         beh = export_behaviours(chk, cfg, mn)
+        if cfg == "HidGen_abandon.cfg" and not thorough:
+            beh = [b for b in beh if rnd.randrange(4) == 0]      # all of them in the thorough tier
         nbeh += len(beh)
         bpath = os.path.join(w, cfg + ".beh.ndjson")
         tpath = os.path.join(w, cfg + ".trace.ndjson")
@@ -175,7 +177,7 @@ def replay(chk, path):
     sched = []
     for e in ev:
         if e["ev"] == "Send":
-            plan.setdefault(e["c"], []).append({"id": e["id"], "cmd": 1, "len": e["len"]})
+            plan.setdefault(e["c"], []).append({"id": e["id"], "cmd": 1, "len": e["len"], "cut": e.get("cut", 0)})
         elif e["ev"] == "Feed":
             sched.append(e["c"])
             if e["id"] == 0 and e["c"] not in strays:
